@@ -11,8 +11,16 @@ EPS = ["", "ε", "_", "e"]
 REPS = ["dd_set", "total_dict", "dd_lambda"]
 
 
-def names(n, pool=POOL):
-    return st.lists(st.sampled_from(pool), min_size=n, max_size=n, unique=True)
+@st.composite
+def names(draw, n, pool=POOL):
+    """n distinct state names.  Mostly from the pool; one time in six consecutive numbered names that cross a digit boundary
+    (q8 q9 q10 q11, s99 s100, ...): lexicographic and numeric order differ there, and fresh-name helpers count upwards."""
+    if pool is POOL and draw(st.integers(0, 5)) == 0:
+        prefix = draw(st.sampled_from(["q", "q", "s", "p", "M", "P", "trap", "q_accept"]))
+        start = draw(st.sampled_from([0, 1, 5, 8, 9, 10, 95, 99]))
+        order = draw(st.permutations(list(range(n))))
+        return ["%s%d" % (prefix, start + i) for i in order]
+    return draw(st.lists(st.sampled_from(pool), min_size=n, max_size=n, unique=True))
 
 
 def alphabets(lo=0, hi=3, syms=SYMS):
@@ -35,6 +43,9 @@ def dfa_specs(draw, max_states=6, min_sigma=0, max_sigma=3, sigma=None, pool=POO
     Q = draw(names(n, pool))
     S = list(sigma) if sigma is not None else draw(alphabets(min_sigma, max_sigma))
     d = [[Q[i], a, Q[draw(st.integers(0, n - 1))]] for i in range(n) for a in S]
+    if draw(st.integers(0, 2)) == 0:
+        # insertion order of the transition map (symbol-major, or arbitrary): printers and converters iterate over it
+        d = sorted(d, key=lambda t: (t[1], t[0])) if draw(st.booleans()) else list(draw(st.permutations(d)))
     return {"Q": Q, "S": S, "d": d, "q0": Q[0], "F": finals(draw, Q), "eps": None}
 
 
